@@ -78,6 +78,11 @@ fn payload_set(rng: &mut Rng, format: TileFormat, c: Comp) -> TileSet {
 	}
 	// a second level with one tile
 	tiles.insert((z - 1, x0 / 2, y0 / 2), comp::compress(b"T:lower level", c));
+	// a tile whose decoded payload is empty (e.g. an empty vector tile); only representable when the
+	// stored form is non-empty, i.e. for compressed sources
+	if c != Comp::None {
+		tiles.insert((z, x0 + 3, y0), comp::compress(b"", c));
+	}
 	TileSet { format, comp: c, tiles, tilejson: "{\"tilejson\":\"3.0.0\",\"name\":\"c04 \\u00e4\",\"attribution\":\"x\",\"vector_layers\":[{\"id\":\"a\",\"fields\":{\"k\":\"String\"}}]}".into(), shape: format!("payload classes at z{z}"), really_compressed: true }
 }
 
@@ -170,7 +175,15 @@ fn run_case(cx: &CaseCtx, rep: &mut Report) {
 	rep.nontrivial(ts.fingerprint() ^ fnv(desc.as_bytes()));
 
 	// expected decoded mapping in output coordinates
-	let expect: BTreeMap<Key, Vec<u8>> = ts.tiles.iter().map(|(k, v)| (model::transform(k, flip, swap), comp::decompress(v, src_comp).unwrap())).collect();
+	let mut expect: BTreeMap<Key, Vec<u8>> = ts.tiles.iter().map(|(k, v)| (model::transform(k, flip, swap), comp::decompress(v, src_comp).unwrap())).collect();
+	// an empty payload stored uncompressed is a zero-length tile, which several formats cannot hold: not demanded
+	let mut optional: std::collections::BTreeSet<Key> = Default::default();
+	if out_comp == Comp::None {
+		optional = expect.iter().filter(|(_, v)| v.is_empty()).map(|(k, _)| *k).collect();
+		expect.retain(|_, v| !v.is_empty());
+	} else if expect.values().any(|v| v.is_empty()) {
+		rep.count("conversions_with_decoded_empty_tile", 1);
+	}
 	let opened = guard::catch(|| guard::block_on(get_reader(out.to_str().unwrap())));
 	let r = match opened {
 		Err(p) => {
@@ -209,6 +222,7 @@ fn run_case(cx: &CaseCtx, rep: &mut Report) {
 		Ok((got, streamed)) => {
 			let mut check = |path: &str, k: &Key, data: Option<&Vec<u8>>, rep: &mut Report| match (data, expect.get(k)) {
 				(None, Some(_)) => rep.violation(&format!("{path}|tile-missing"), "a source tile is missing from the converted container", witness(json!({"tile": kstr(k)}))),
+				(Some(_), None) if optional.contains(k) => {}
 				(Some(_), None) => rep.violation(&format!("{path}|tile-extra"), "the converted container holds a tile the source does not have", witness(json!({"tile": kstr(k)}))),
 				(Some(d), Some(e)) => match comp::decompress(d, declared) {
 					Err(err) => rep.violation(&format!("{path}|not-decodable-with-declared-compression"), "an output tile does not decode with the compression the output declares", witness(json!({"tile": kstr(k), "declared": declared.name(), "error": err, "bytes": short(d)}))),
